@@ -428,11 +428,118 @@ def scan(repo):
         sc.run(tree)
         sites += sc.sites
         nondet += sc.nondet
+    st, rv = state_scan(pkg)
+    sites += [dict(x, cls='state') for x in st] + [dict(x, cls='state-reviewed') for x in rv]
     return sites, nondet
 
 
 _VERNAC = ('Admitted', 'admit', 'Axiom', 'Axioms', 'Parameter', 'Parameters', 'Conjecture', 'Conjectures', 'Hypothesis',
            'Hypotheses', 'Variable', 'Variables')
+
+
+# ------------------------------------------------------------------------------------------------
+# process-level / object-level state that can make the output depend on history
+# ------------------------------------------------------------------------------------------------
+
+CACHE_DECORATORS = {'cache', 'lru_cache', 'cached_property', 'memoize', 'memoized', 'cached', 'singledispatch'}
+MUTATORS = {'add', 'append', 'extend', 'update', 'setdefault', 'insert', 'pop', 'popitem', 'remove', 'discard', 'clear',
+            'appendleft', '__setitem__'}
+# caches reviewed by hand: (file, function) -> why the cached value is a function of the arguments only
+REVIEWED_CACHES = {
+    ('proofs/kore.py', 'sorted_exists'): 'notation constructor keyed by its only argument; returns an immutable Notation',
+    ('proofs/kore.py', 'kore_exists'): 'notation constructor keyed by its only argument; returns an immutable Notation',
+    ('proofs/kore.py', 'nary_app'): 'notation constructor keyed by all its arguments (the cache exists so that equal arguments give the same object)',
+    ('proofs/kore.py', 'deconstruct_nary_application'): 'pure function of an immutable pattern',
+    ('proofs/kore.py', 'deconstruct_equality_rule'): 'pure function of an immutable pattern',
+}
+# instance attributes assigned outside __init__ in the scanned files, reviewed: (file, class.method, attribute) -> why
+REVIEWED_INSTANCE_STATE = {
+    ('counting_interpreter.py', 'CountingInterpreter.finalize', '_max_allowed_slots'):
+        'analysis object is created per serialize() call; finalize() asserts it runs once',
+    ('counting_interpreter.py', 'CountingInterpreter.finalize', '_finalized'): 'same (one-shot flag of a per-call object)',
+    ('metamath/converter/scope.py', 'Scope.import_from_scope', '_metavars'):
+        'initialiser-style copy: called on a Scope() created the line before; copies the parent scope\'s tables',
+    ('metamath/converter/scope.py', 'Scope.import_from_scope', '_element_vars'): 'same',
+    ('metamath/converter/scope.py', 'Scope.import_from_scope', '_set_vars'): 'same',
+    ('metamath/converter/scope.py', 'Scope.import_from_scope', '_notations'): 'same',
+}
+
+
+def state_scan(pkg):
+    """(sites, reviewed): caches / module-level mutable state in the WHOLE package, instance state written outside
+    __init__ in the scanned (anchored + converter) files"""
+    sites, reviewed = [], []
+    scanned = set(scanned_files(pkg))
+    for root, _, files in os.walk(pkg):
+        for fn in sorted(files):
+            if not fn.endswith('.py'):
+                continue
+            path = os.path.join(root, fn)
+            rel = os.path.relpath(path, pkg)
+            try:
+                tree = ast.parse(open(path).read())
+            except SyntaxError:
+                continue
+            # (i) caching decorators
+            for node in ast.walk(tree):
+                if isinstance(node, (ast.FunctionDef, ast.AsyncFunctionDef)):
+                    for d in node.decorator_list:
+                        core = d.func if isinstance(d, ast.Call) else d
+                        nm = core.id if isinstance(core, ast.Name) else core.attr if isinstance(core, ast.Attribute) else ''
+                        if nm in CACHE_DECORATORS:
+                            rec = dict(file=rel, func=node.name, kind='cache-decorator:' + nm, expr=node.name, line=node.lineno)
+                            (reviewed if (rel, node.name) in REVIEWED_CACHES else sites).append(rec)
+            # (ii) module-level mutable containers that some function mutates, `global` statements,
+            #      class-level attributes written through the class (ClassName.attr = ..., cls.attr = ...)
+            modlevel = {}
+            classes = {n.name for n in tree.body if isinstance(n, ast.ClassDef)}
+            for n in tree.body:
+                tgts = []
+                if isinstance(n, ast.Assign):
+                    tgts, val = n.targets, n.value
+                elif isinstance(n, ast.AnnAssign) and n.value is not None:
+                    tgts, val = [n.target], n.value
+                for t in tgts:
+                    if isinstance(t, ast.Name) and (isinstance(val, (ast.Dict, ast.List, ast.Set, ast.DictComp, ast.ListComp, ast.SetComp))
+                                                    or (isinstance(val, ast.Call) and isinstance(val.func, ast.Name)
+                                                        and val.func.id in ('dict', 'list', 'set', 'defaultdict', 'OrderedDict', 'Counter', 'deque'))):
+                        modlevel[t.id] = n.lineno
+            for fnode in ast.walk(tree):
+                if not isinstance(fnode, (ast.FunctionDef, ast.AsyncFunctionDef)):
+                    continue
+                for sub in ast.walk(fnode):
+                    if isinstance(sub, ast.Global):
+                        for g in sub.names:
+                            sites.append(dict(file=rel, func=fnode.name, kind='global-statement', expr=g, line=sub.lineno))
+                    if isinstance(sub, ast.Call) and isinstance(sub.func, ast.Attribute) and sub.func.attr in MUTATORS \
+                            and isinstance(sub.func.value, ast.Name) and sub.func.value.id in modlevel:
+                        sites.append(dict(file=rel, func=fnode.name, kind='module-level-container-mutated',
+                                          expr=sub.func.value.id, line=sub.lineno))
+                    if isinstance(sub, (ast.Assign, ast.AugAssign, ast.AnnAssign)):
+                        for t in (sub.targets if isinstance(sub, ast.Assign) else [sub.target]):
+                            base = t.value if isinstance(t, ast.Subscript) else t
+                            if isinstance(t, ast.Subscript) and isinstance(base, ast.Name) and base.id in modlevel:
+                                sites.append(dict(file=rel, func=fnode.name, kind='module-level-container-mutated',
+                                                  expr=base.id, line=sub.lineno))
+                            if isinstance(t, ast.Attribute) and isinstance(t.value, ast.Name) and (t.value.id in classes or t.value.id == 'cls'):
+                                sites.append(dict(file=rel, func=fnode.name, kind='class-attribute-written',
+                                                  expr=f'{t.value.id}.{t.attr}', line=sub.lineno))
+            # (iii) instance attributes assigned outside __init__ (memoised serialisation inputs) — scanned files only
+            if rel in scanned:
+                for cnode in ast.walk(tree):
+                    if not isinstance(cnode, ast.ClassDef):
+                        continue
+                    for m in cnode.body:
+                        if not isinstance(m, (ast.FunctionDef, ast.AsyncFunctionDef)) or m.name in ('__init__', '__post_init__', '__new__'):
+                            continue
+                        for sub in ast.walk(m):
+                            if isinstance(sub, (ast.Assign, ast.AugAssign, ast.AnnAssign)):
+                                for t in (sub.targets if isinstance(sub, ast.Assign) else [sub.target]):
+                                    if isinstance(t, ast.Attribute) and isinstance(t.value, ast.Name) and t.value.id == 'self':
+                                        rec = dict(file=rel, func=f'{cnode.name}.{m.name}', kind='instance-attribute-written-outside-init',
+                                                   expr='self.' + t.attr, line=sub.lineno)
+                                        (reviewed if (rel, f'{cnode.name}.{m.name}', t.attr) in REVIEWED_INSTANCE_STATE else sites).append(rec)
+    return sites, reviewed
 
 
 def coq_string(s):
@@ -483,7 +590,13 @@ def emit(sites, nondet):
            lst('tainted_insensitive_uses', tin, 'uses of such attributes through len / set / membership (listed for the record)'),
            lst('reviewed_ordered', rev, 'iterables typed by the reviewed table in the scanner (insertion-ordered dicts)'),
            lst('unclassified', unk, 'iterables whose orderedness the scanner could not establish (must be empty or matched)'),
-           lst('nondet_calls', nd, 'calls to process-level nondeterminism sources (must be empty)')]
+           lst('nondet_calls', nd, 'calls to process-level nondeterminism sources (must be empty)'),
+           lst('state_sites', dedup([s for s in sites if s['cls'] == 'state']),
+               'caches (functools.cache/lru_cache/...), module-level containers mutated in functions, global statements, class '
+               'attributes written through the class (whole package) and instance attributes written outside __init__ (scanned '
+               'files): history-dependence sources, must be empty'),
+           lst('reviewed_state', dedup([s for s in sites if s['cls'] == 'state-reviewed']),
+               'the same, reviewed by hand in the scanner (argument-keyed notation constructors, one-shot flags of per-call objects)')]
     return '\n'.join(out)
 
 
